@@ -181,8 +181,8 @@ HEAD4 = {"raw": r"""
 #undef VERIF_UNWIND
 #define VERIF_UNWIND
 /* the closing block of the intersection branch of theta_intersection_base::update (new table from the matched entries), extracted as a region */
-void isect_rebuild(struct theta_isect* self, const EN* matched_entries, uint32_t match_count)
-__CPROVER_requires(__CPROVER_is_fresh(self, sizeof(*self)) && match_count <= (1u << 27) && __CPROVER_is_fresh(matched_entries, (size_t)(match_count ? match_count : 1) * sizeof(EN)) && verif_exc == 0)
+void isect_rebuild(struct theta_isect* self, const struct csk* sketch, const EN* matched_entries, uint32_t match_count)
+__CPROVER_requires(__CPROVER_is_fresh(self, sizeof(*self)) && __CPROVER_is_fresh(sketch, sizeof(*sketch)) && match_count <= (1u << 27) && __CPROVER_is_fresh(matched_entries, (size_t)(match_count ? match_count : 1) * sizeof(EN)) && verif_exc == 0)
 __CPROVER_requires((match_count == 0 || g_e < match_count) && !g_e_examined && g_find_calls < 1000 && g_insert_calls < 1000 && g_ins0 == g_insert_calls && g_new_calls == 0)
 __CPROVER_assigns(self->table_.is_empty_, self->table_.num_entries_, self->table_.lg_cur_size_, self->table_.lg_nom_size_, g_new_calls, g_find_calls, g_last_find, g_insert_calls, g_e_examined)
 /* one fresh table that keeps theta and seed; it holds exactly the matched entries (an arbitrary one, g_e, was inserted; inserts == matches) */
@@ -194,7 +194,7 @@ __CPROVER_ensures(match_count == 0 ==> (self->table_.lg_cur_size_ == 0 && (self-
 """}
 REGION4 = {"name": "intersection_update_rebuild_block", "file": IF, "members": MEMBERS,
            "begin": r"if \(match_count == 0\) \{", "include_begin": True, "end": r"\}\s*\}\s*template<[^>]*>\s*CS theta_intersection_base<EN, EK, P, S, CS, A>::get_result",
-           "rules": [(r"theta_update_sketch_base<EN, EK, A>::REBUILD_THRESHOLD", "REBUILD_THRESHOLD_C", 1),
+           "rules": S.SKACC + [(r"sketch\.get_num_retained\(\)", "sketch->n", "any"), (r"theta_update_sketch_base<EN, EK, A>::REBUILD_THRESHOLD", "REBUILD_THRESHOLD_C", 1),
                      (r"self->table_ = hash_table\(([^,]+), ([^,]+), resize_factor::X1, 1, self->table_\.theta_, self->table_\.seed_, self->table_\.allocator_, self->table_\.is_empty_\);",
                       r"table_new(&self->table_, \1, \2, self->table_.theta_, self->table_.seed_, self->table_.is_empty_);", 2),
                      (r"for \(uint32_t i = 0; i < match_count; \+\+i\) \{", LOOPC4, 1),
@@ -205,9 +205,40 @@ UNIT4 = {
     "clause": "theta_intersection_base::update closing block for every match count: one fresh table that keeps theta and seed and receives every matched entry exactly once; with no match the table is minimal and "
               "the result is the empty set exactly if it was empty already or theta is still MAX_THETA",
     "prelude": PRELUDE3, "parts": [HEAD4, REGION4, TAIL],
-    "harness": "void h_isect_rebuild(void) { struct theta_isect* s = malloc(sizeof(*s)); const EN* m; verif_exc = 0; isect_rebuild(s, m, nondet_u32()); VERIF_CANARY_POINT; }\n",
+    "harness": "void h_isect_rebuild(void) { struct theta_isect* s = malloc(sizeof(*s)); const EN* m; const struct csk* k; verif_exc = 0; isect_rebuild(s, k, m, nondet_u32()); VERIF_CANARY_POINT; }\n",
     "jobs": [{"name": "isect_rebuild", "entry": "h_isect_rebuild", "enforce": "isect_rebuild", "replace": ["find_k", "insert_c", "table_new", "lg_size_from_count"], "loops": True, "expect_loop_steps": 1, "timeout": 600}],
     "assumptions": ["the block is extracted as a region of update() and wrapped in a function whose signature and contract are specification (matched_entries / match_count are its inputs)",
                     "hash_table construction, find and insert enter by the same ghost contracts as in theta_intersection_first"],
 }
-UNITS = [UNIT, UNIT2, UNIT3, UNIT4]
+
+HEAD5 = {"raw": r"""
+#undef VERIF_RV
+#define VERIF_RV
+#undef VERIF_UNWIND
+#define VERIF_UNWIND
+/* the no-retained-entries shortcut of theta_intersection_base::update, extracted as a region */
+void isect_noretained(struct theta_isect* self, const struct csk* sketch)
+__CPROVER_requires(__CPROVER_is_fresh(self, sizeof(*self)) && __CPROVER_is_fresh(sketch, sizeof(*sketch)) && verif_exc == 0 && g_new_calls == 0 && !g_continue)
+__CPROVER_assigns(self->is_valid_, self->table_.num_entries_, self->table_.lg_cur_size_, self->table_.lg_nom_size_, g_new_calls, g_continue)
+/* an input without retained entries makes the intersection valid with a minimal table without entries; theta, seed and emptiness (already settled by the state block) are kept */
+__CPROVER_ensures(sketch->n == 0 ==> (!g_continue && self->is_valid_ && g_new_calls == 1 && self->table_.num_entries_ == 0 && self->table_.lg_cur_size_ == 0
+    && self->table_.theta_ == __CPROVER_old(self->table_.theta_) && self->table_.seed_ == __CPROVER_old(self->table_.seed_) && self->table_.is_empty_ == __CPROVER_old(self->table_.is_empty_)))
+/* any other input falls through with nothing changed */
+__CPROVER_ensures(sketch->n != 0 ==> (g_continue && g_new_calls == 0 && self->is_valid_ == __CPROVER_old(self->is_valid_) && self->table_.num_entries_ == __CPROVER_old(self->table_.num_entries_)))
+{
+"""}
+REGION5 = {"name": "intersection_update_no_retained_block", "file": IF, "members": MEMBERS,
+           "begin": r"if \(sketch\.get_num_retained\(\) == 0\) \{", "include_begin": True, "end": r"if \(!is_valid_\) \{",
+           "rules": [(r"sketch\.get_num_retained\(\)", "sketch->n", 1),
+                     (r"self->table_ = hash_table\(([^,]+), ([^,]+), resize_factor::X1, 1, self->table_\.theta_, self->table_\.seed_, self->table_\.allocator_, self->table_\.is_empty_\);",
+                      r"table_new(&self->table_, \1, \2, self->table_.theta_, self->table_.seed_, self->table_.is_empty_);", 1)]}
+UNIT5 = {
+    "id": "theta_intersection_noretained", "property": "C02",
+    "clause": "theta_intersection_base::update shortcut for an input without retained entries: the intersection becomes valid with a minimal table without entries and keeps theta, seed and emptiness; "
+              "any other input falls through unchanged",
+    "prelude": PRELUDE3, "parts": [HEAD5, REGION5, {"raw": "\n g_continue = 1;\n}\n"}],
+    "harness": "void h_isect_noret(void) { struct theta_isect* s = malloc(sizeof(*s)); struct csk* k = malloc(sizeof(*k)); verif_exc = 0; isect_noretained(s, k); VERIF_CANARY_POINT; }\n",
+    "jobs": [{"name": "isect_noretained", "entry": "h_isect_noret", "enforce": "isect_noretained", "replace": ["table_new"], "timeout": 300}],
+    "assumptions": ["the block is extracted as a region of update() and wrapped in a function whose signature and contract are specification; hash_table construction enters by a ghost contract (fresh table without entries)"],
+}
+UNITS = [UNIT, UNIT2, UNIT3, UNIT4, UNIT5]
